@@ -230,6 +230,9 @@ theorem assertLowerThanFixed_sound_partial (hR : RangeSound R) (s : St F) (x : C
     · rw [rb] at hv
       exact ⟨N, by omega, by grind⟩
 
+/-- Elaboration helper: fixes the later state from a `Holds` hypothesis. -/
+theorem ext_hint {s S : St F} {asg : Cell → F} (_h : S.Holds R asg) (e : s.Ext S) : s.Ext S := e
+
 theorem lowerThan_ext (s : St F) (x : Cell) (bx : Nat) (y : Cell) (by_ : Nat) :
     s.Ext (lowerThan s x bx y by_).2 := by
   simp only [lowerThan]
@@ -262,7 +265,7 @@ theorem lowerThan_sound (hR : RangeSound R) (p : Nat)
   obtain ⟨c3, r3⟩ := mul_sound _ x _ none asg c2 h3
   obtain ⟨c4, r4⟩ := mul_sound _ y _ none asg c3 h4'
   obtain ⟨_, c5, r5⟩ := linearCombination_sound _ _ _ asg c4 h5
-  have eall := e1.trans (e2.trans ((mul_ext ..).trans ((mul_ext ..).trans (linearCombination_ext ..))))
+  have eall := ext_hint h5 (e1.trans (e2.trans ((mul_ext ..).trans ((mul_ext ..).trans (linearCombination_ext ..)))))
   obtain ⟨_, N, hN, hv⟩ := assertLessThanPow2_sound hR _ _ (max bx by_) asg (by rw [eall.1]; exact h0)
     (by rw [eall.1]; exact h4) (OptOK_ext eall _ hopt).1 (OptOK_ext eall _ hopt).2 c5 h
   rw [r5] at hv
